@@ -313,6 +313,72 @@ theorem codecShuffleProof_lawful (hE : LawfulCodec o.codecE VE) (hX : LawfulCode
   codecShuffleProof_lawful' (codecCommitments_lawful hE bE) (codecResponses_lawful hX bX)
     (vecE_lawful hE bE)
 
+/-! ### monotonicity of the `Valid` predicates -/
+
+theorem VecValid.mono {α : Type} {V V' : α → Prop} (hv : ∀ a, V a → V' a) {xs : List α}
+    (h : VecValid V xs) : VecValid V' xs :=
+  ⟨fun x hx => hv x (h.1 x hx), h.2⟩
+
+theorem CtValid.mono {VE VE' : E → Prop} (hv : ∀ a, VE a → VE' a) {c : Ciphertext E}
+    (h : CtValid VE c) : CtValid VE' c :=
+  ⟨hv _ h.1, hv _ h.2⟩
+
+theorem SchnorrValid.mono {VE VE' : E → Prop} {VX VX' : X → Prop} (hv : ∀ a, VE a → VE' a)
+    (hx : ∀ a, VX a → VX' a) {p : Schnorr E X} (h : SchnorrValid VE VX p) :
+    SchnorrValid VE' VX' p :=
+  ⟨hv _ h.1, hx _ h.2.1, hx _ h.2.2⟩
+
+theorem CPValid.mono {VE VE' : E → Prop} {VX VX' : X → Prop} (hv : ∀ a, VE a → VE' a)
+    (hx : ∀ a, VX a → VX' a) {p : ChaumPedersen E X} (h : CPValid VE VX p) :
+    CPValid VE' VX' p :=
+  ⟨hv _ h.1, hv _ h.2.1, hx _ h.2.2.1, hx _ h.2.2.2⟩
+
+theorem CommitmentsValid.mono {VE VE' : E → Prop} (hv : ∀ a, VE a → VE' a) {t : Commitments E}
+    (h : CommitmentsValid VE t) : CommitmentsValid VE' t :=
+  ⟨hv _ h.1, hv _ h.2.1, hv _ h.2.2.1, hv _ h.2.2.2.1, hv _ h.2.2.2.2.1, h.2.2.2.2.2.mono hv⟩
+
+theorem ResponsesValid.mono {VX VX' : X → Prop} (hx : ∀ a, VX a → VX' a) {s : Responses X}
+    (h : ResponsesValid VX s) : ResponsesValid VX' s :=
+  ⟨hx _ h.1, hx _ h.2.1, hx _ h.2.2.1, hx _ h.2.2.2.1, h.2.2.2.2.1.mono hx, h.2.2.2.2.2.mono hx⟩
+
+theorem ShuffleProofValid.mono {VE VE' : E → Prop} {VX VX' : X → Prop} (hv : ∀ a, VE a → VE' a)
+    (hx : ∀ a, VX a → VX' a) {p : ShuffleProof E X} (h : ShuffleProofValid VE VX p) :
+    ShuffleProofValid VE' VX' p :=
+  ⟨h.1.mono hv, h.2.1.mono hx, h.2.2.1.mono hv, h.2.2.2.mono hv⟩
+
+/-! ### what decodes is valid, with NO bound on encoding lengths
+
+`nested c` is not lawful without a length bound (`nested_not_lawful_in_general`), but the
+"decodes only if every component does" direction needs none. -/
+
+theorem nested_dec_vecValid {α : Type} {c : Codec α} {V : α → Prop} (h : LawfulCodec c V)
+    {bs : Bytes} {xs : List α} {r : Bytes} (hd : (nested c).dec bs = some (xs, r)) :
+    VecValid V xs :=
+  ⟨fun x hx => ((nested_dec_valid_weak h hd).1 x hx).1, (nested_dec_valid_weak h hd).2⟩
+
+theorem codecCommitments_dec_valid (hE : LawfulCodec o.codecE VE) {bs : Bytes}
+    {t : Commitments E} {r : Bytes} (hd : (codecCommitments o).dec bs = some (t, r)) :
+    CommitmentsValid VE t := by
+  obtain ⟨r5, h1, h2⟩ := codecCommitments_dec_eq_some_iff.1 hd
+  obtain ⟨r1, r2, r3, r4, e1, e2, e3, e4, e5⟩ := decE5_eq_some_iff.1 h1
+  exact ⟨hE.dec_valid _ _ _ e1, hE.dec_valid _ _ _ e2, hE.dec_valid _ _ _ e3,
+    hE.dec_valid _ _ _ e4, hE.dec_valid _ _ _ e5, nested_dec_vecValid hE h2⟩
+
+theorem codecResponses_dec_valid (hX : LawfulCodec o.codecX VX) {bs : Bytes}
+    {s : Responses X} {r : Bytes} (hd : (codecResponses o).dec bs = some (s, r)) :
+    ResponsesValid VX s := by
+  obtain ⟨r4, r5, h1, h2, h3⟩ := codecResponses_dec_eq_some_iff.1 hd
+  obtain ⟨r1, r2, r3, e1, e2, e3, e4⟩ := decX4_eq_some_iff.1 h1
+  exact ⟨hX.dec_valid _ _ _ e1, hX.dec_valid _ _ _ e2, hX.dec_valid _ _ _ e3,
+    hX.dec_valid _ _ _ e4, nested_dec_vecValid hX h2, nested_dec_vecValid hX h3⟩
+
+theorem codecShuffleProof_dec_valid (hE : LawfulCodec o.codecE VE) (hX : LawfulCodec o.codecX VX)
+    {bs : Bytes} {p : ShuffleProof E X} {r : Bytes}
+    (hd : (codecShuffleProof o).dec bs = some (p, r)) : ShuffleProofValid VE VX p := by
+  obtain ⟨r1, r2, r3, h1, h2, h3, h4⟩ := codecShuffleProof_dec_eq_some_iff.1 hd
+  exact ⟨codecCommitments_dec_valid hE h1, codecResponses_dec_valid hX h2,
+    nested_dec_vecValid hE h3, nested_dec_vecValid hE h4⟩
+
 end Generic
 
 /-! ### the `Nat` back-end -/
